@@ -1,8 +1,8 @@
 #!/bin/bash
-# native demonstration of known finding C13/mem-intact: a FAILED ADD_MEM_REG (backend.update_memory returns Err) has already
+# native demonstration of known finding C13/mem-intact: a FAILED SET_MEM_TABLE (backend.update_memory returns Err) has already
 # replaced the guest memory the backend sees. Runs in a scratch worktree; exit 0 = finding reproduced.
 set -u
-WT=/tmp/wt/demo_f; git -C /repo worktree remove --force $WT 2>/dev/null; git -C /repo worktree add -q --detach $WT ${DEMO_REF:-HEAD} || exit 2
+WT=/tmp/wt/demo_g; git -C /repo worktree remove --force $WT 2>/dev/null; git -C /repo worktree add -q --detach $WT ${DEMO_REF:-HEAD} || exit 2
 cd $WT && python3 - <<'PY'
 p='vhost-user-backend/src/handler.rs'
 s=open(p).read()
@@ -20,28 +20,28 @@ test='''
         fn handle_event(&mut self, _d: u16, _e: EventSet, _v: &[Self::Vring], _t: usize) -> std::io::Result<()> { Ok(()) }
     }
     #[test]
-    fn verif_demo_failed_add_mem_region_changes_memory() {
+    fn verif_demo_failed_set_mem_table_changes_memory() {
         use vm_memory::GuestMemory;
         let mem = GuestMemoryAtomic::new(GuestMemoryMmap::<()>::new());
         let backend = Arc::new(Mutex::new(FailingUpdate));
         let mut handler = VhostUserHandler::new(backend, mem.clone()).unwrap();
         let f = vmm_sys_util::tempfile::TempFile::new().unwrap().into_file();
         f.set_len(0x2000).unwrap();
-        let region = VhostUserSingleMemoryRegion::new(0x10_0000, 0x2000, 0x7f00_0000_0000, 0);
+        let region = VhostUserMemoryRegion::new(0x10_0000, 0x2000, 0x7f00_0000_0000, 0);
         let before = mem.memory().num_regions();
-        let r = handler.add_mem_region(&region, f);
+        let r = handler.set_mem_table(&[region], vec![f]);
         assert!(r.is_err());
         let after = mem.memory().num_regions();
         // (the handler is not dropped: without exit events its Drop would wait for the worker thread forever)
-        eprintln!("VERIF-DEMO add_mem_region returned Err; regions before={} after={}", before, after);
-        if before != after { eprintln!("a FAILED ADD_MEM_REG changed the guest memory the backend sees"); }
+        eprintln!("VERIF-DEMO set_mem_table returned Err; regions before={} after={}", before, after);
+        if before != after { eprintln!("a FAILED SET_MEM_TABLE changed the guest memory the backend sees"); }
         std::process::exit(if before == after { 0 } else { 3 });
     }
 '''
 i=s.rindex('}')
 open(p,'w').write(s[:i]+test+s[i:])
 PY
-CARGO_TARGET_DIR=/tmp/wt/demo_f_target cargo test -p vhost-user-backend --offline --lib verif_demo_failed_add -- --nocapture 2>&1 | tee /tmp/wt/demo_f.log | grep -E "panicked|FAILED ADD|test result|^error" | head
-grep -q "a FAILED ADD_MEM_REG changed the guest memory" /tmp/wt/demo_f.log; rc=$?
-cd /; git -C /repo worktree remove --force $WT; rm -rf /tmp/wt/demo_f_target
+CARGO_TARGET_DIR=/tmp/wt/demo_g_target cargo test -p vhost-user-backend --offline --lib verif_demo_failed_set -- --nocapture 2>&1 | tee /tmp/wt/demo_g.log | grep -E "panicked|FAILED SET|test result|^error" | head
+grep -q "a FAILED SET_MEM_TABLE changed the guest memory" /tmp/wt/demo_g.log; rc=$?
+cd /; git -C /repo worktree remove --force $WT; rm -rf /tmp/wt/demo_g_target
 exit $rc
